@@ -164,7 +164,26 @@ def summary_provider(name):
 
 
 def build_summaries(contract):
+    """modular calls: the callee is replaced by its contract (precondition obliged at the call site,
+    fresh result constrained by the postconditions the callee's own contract proves)"""
     out = {}
     for name in contract.summaries:
         out.update(_SUMMARY_PROVIDERS[name]())
     return out
+
+
+def summary_of(c):
+    """generic summary built from a Contract instance that defines summary_inputs / summary_pre / summary_result"""
+    from .contract import SymFactory, Outcome as _Out
+
+    def summ(interp, args, kwargs):
+        F = SymFactory(interp)
+        inp = c.summary_inputs(F, args, kwargs)
+        interp.ctx.oblige("pre@call", "precondition of %s at the call site" % c.target.split(".")[-1], c.summary_pre(F, inp))
+        res = c.summary_result(F, inp)
+        for label, cond in c.post(F, inp, _Out(res)):
+            interp.ctx.assume(cond if not isinstance(cond, bool) else z3.BoolVal(cond))
+        interp.ctx.used_models.add("callee contract used instead of body: %s" % c.cid)
+        return res
+
+    return {c.target: summ}
